@@ -146,10 +146,19 @@ class UdpInverterProtocol(InverterProtocol, asyncio.DatagramProtocol):
             self._timer = None
         try:
             if self._partial_data and self._partial_missing == len(data):
-                logger.debug("Composed fragmented response: %s + %s", self._partial_data.hex(), data.hex())
-                data = self._partial_data + data
+                composed = self._partial_data + data
                 self._partial_data = None
                 self._partial_missing = 0
+                try:
+                    completes = self.command.validator(composed)
+                except PartialResponseException:
+                    completes = False
+                except RequestRejectedException:
+                    completes = True
+                if completes:
+                    logger.debug("Composed fragmented response: %s", composed.hex())
+                    data = composed
+                # otherwise the datagram is not the remainder of the pending (stale) fragment, handle it on its own
             if self.command.validator(data):
                 logger.debug("Received: %s", data.hex())
                 self.response_future.set_result(data)
